@@ -17,6 +17,13 @@ func genC17(sc *Scenario) {
 	// layout: explicit roots above / beside the natural one
 	if simrt.Flip("c17.layout", 0.5) {
 		genLayout(sc)
+	} else if simrt.Flip("c17.masked-outsider", 0.12) {
+		genMaskedOutsider(sc)
+	} else if !sc.ExplicitRoot && simrt.Flip("c17.case-sibling", 0.1) {
+		genCaseSibling(sc)
+	}
+	for _, ps := range sc.Plugins {
+		ps.ModSuffix = "/" + sc.Prog.Files[0].RelPath()
 	}
 	if simrt.Flip("c17.output-file", 0.12) {
 		sc.OutputFile = outputFileShapes[simrt.ChoiceBias("c17.output-file-shape", len(outputFileShapes), 0.5)]
@@ -51,6 +58,69 @@ func genLayout(sc *Scenario) {
 			}
 		}
 		sc.RootRel = cands[simrt.Choice("c17.root", len(cands))]
+	}
+}
+
+// genMaskedOutsider lays the program out under an explicit root that holds every file
+// but one, and gives that one the base name of a file inside the root: which files are
+// checked against the root must not depend on what they are called.
+func genMaskedOutsider(sc *Scenario) {
+	p := sc.Prog
+	nf := len(p.Files)
+	if nf < 2 {
+		return
+	}
+	includes := func(i, j int) bool {
+		for _, k := range p.Files[i].Includes {
+			if k == j {
+				return true
+			}
+		}
+		return false
+	}
+	type pair struct{ out, in int }
+	var pairs []pair
+	for j := 0; j < nf; j++ {
+		for k := 0; k < nf; k++ {
+			// the same name twice among the includes of one file is not legal Thrift
+			ok := j != k && !includes(j, k) && !includes(k, j)
+			for i := 0; i < nf && ok; i++ {
+				ok = !(includes(i, j) && includes(i, k))
+			}
+			if ok {
+				pairs = append(pairs, pair{j, k})
+			}
+		}
+	}
+	if len(pairs) == 0 {
+		return
+	}
+	pr := pairs[simrt.Choice("c17.masked-pair", len(pairs))]
+	for i, f := range p.Files {
+		f.Dir = []string{"a", "a/b", "a/c"}[simrt.Choice("c17.inside-dir", 3)]
+		if i == pr.out {
+			f.Dir = []string{"c", "", "ab", "c/a"}[simrt.Choice("c17.outside-dir", 4)]
+		}
+	}
+	p.Files[pr.out].Base = p.Files[pr.in].Base
+	sc.ExplicitRoot, sc.RootRel = true, "thrift/a"
+}
+
+// genCaseSibling moves some files of a program with a derived root into a directory
+// that differs from a sibling only in the case of its name.
+func genCaseSibling(sc *Scenario) {
+	p := sc.Prog
+	moved, stayed := false, false
+	for i, f := range p.Files {
+		if f.Dir == "" {
+			f.Dir = []string{"a", "a/b"}[simrt.Choice("c17.case-dir", 2)]
+		}
+		if simrt.Flip("c17.case-move", 0.5) || (i == len(p.Files)-1 && !moved && stayed) {
+			f.Dir = strings.ToUpper(f.Dir[:1]) + f.Dir[1:]
+			moved = true
+		} else {
+			stayed = true
+		}
 	}
 }
 
